@@ -26,8 +26,8 @@ from .rng import EX
 BIG_ALPHA = 1e15
 
 
-class ScriptExhausted(BaseException):
-    pass
+class ScriptExhausted(Exception):
+    """the code asked for a continuous draw the scenario does not script (reported as an error of the call)"""
 
 
 class Env:
@@ -99,7 +99,24 @@ class GenRng:
         return _real_np.array([float(x) for x in pt])
 
 
+class TooFine(Exception):
+    """a probability handed to a primitive draw is not (the double nearest to) a rational with denominator <= 10**6, so
+    rng.py's read-back would be an approximation: the case cannot be decided exactly and is reported as not enumerable"""
+
+
+def _check_exact(ps):
+    for x in ps:
+        x = float(x)
+        if abs(float(rng._frac(x)) - x) > 5e-14 * max(abs(x), 1e-300):
+            raise TooFine(repr(x))
+
+
 class GenNpRandom(rng.FakeNpRandom):
+    def choice(self, a, size=None, replace=True, p=None):
+        if EX.active and p is not None:
+            _check_exact(p)
+        return rng.FakeNpRandom.choice(self, a, size=size, replace=replace, p=p)
+
     def _cont(self, name, loc, size, real_args):
         if not ENV.active:
             return getattr(_real_np.random, name)(*real_args)
@@ -138,6 +155,7 @@ class GenRandom(rng.FakeRandom):
         if cum_weights is not None:
             raise NotImplementedError("cum_weights is not scripted")
         if weights is not None:
+            _check_exact([w for w in weights if isinstance(w, float)])
             weights = [rng._frac(w) if isinstance(w, float) else w for w in weights]
         return rng.FakeRandom.choices(self, pop, weights=weights, k=k)
 
